@@ -235,10 +235,13 @@ func (f *Frame) havocCall(c *ssa.CallCommon, callee *ssa.Function, args []Val) V
 	prov = prov.closure()
 	pure := callee != nil && ex.isPureCallee(callee)
 	if !pure {
-		// unknown effects: every heap may have changed
+		// unknown effects: every heap may have changed, except the caller's own
+		// objects that the callee cannot reach (not passed, directly or indirectly)
+		old := f.st.clone()
 		ex.nframe++
 		f.st.heaps = map[string]string{}
 		f.st.epoch = 3000 + ex.nframe
+		f.keepUnreachable(old, prov)
 		// passed objects are considered published
 		f.publish(prov, nil)
 	}
@@ -260,6 +263,96 @@ func (f *Frame) havocCall(c *ssa.CallCommon, callee *ssa.Function, args []Val) V
 	}
 	f.nfAssume(rv)
 	return rv
+}
+
+// keepUnreachable: after a call with unknown effects, objects allocated by this
+// activation that were not passed to the callee (directly or through other
+// passed objects) still have their old content.
+func (f *Frame) keepUnreachable(old *State, passed provSet) {
+	ex := f.ex
+	for _, o := range ex.fresh {
+		if _, p := passed[o]; p {
+			// a local variable captured by closures that only read it cannot be changed through them
+			if a, ok := o.site.(*ssa.Alloc); !ok || !capturedReadOnly(a, 0) {
+				continue
+			}
+		}
+		ex.assume("(= (select " + ex.heapTerm(f.st, o.heap) + " " + o.addr + ") (select " + ex.heapTerm(old, o.heap) + " " + o.addr + "))")
+	}
+}
+
+// capturedReadOnly: the variable's address is used only by loads and stores of
+// the declaring function itself and by closures that merely load from it.
+func capturedReadOnly(v ssa.Value, depth int) bool {
+	if depth > 4 {
+		return false
+	}
+	refs := v.Referrers()
+	if refs == nil {
+		return false
+	}
+	_, isFree := v.(*ssa.FreeVar)
+	for _, r := range *refs {
+		switch x := r.(type) {
+		case *ssa.DebugRef:
+		case *ssa.UnOp:
+			// load
+		case *ssa.Store:
+			if x.Val == v {
+				return false // address stored somewhere
+			}
+			if isFree {
+				return false // a closure assigns the captured variable
+			}
+		case *ssa.FieldAddr:
+			if !addrUsedForAccessOnly(x, isFree) {
+				return false
+			}
+		case *ssa.IndexAddr:
+			if !addrUsedForAccessOnly(x, isFree) {
+				return false
+			}
+		case *ssa.MakeClosure:
+			fn := x.Fn.(*ssa.Function)
+			for i, b := range x.Bindings {
+				if b == v {
+					if i >= len(fn.FreeVars) || !capturedReadOnly(fn.FreeVars[i], depth+1) {
+						return false
+					}
+				}
+			}
+		default:
+			return false
+		}
+	}
+	return true
+}
+
+func addrUsedForAccessOnly(v ssa.Value, readOnly bool) bool {
+	refs := v.Referrers()
+	if refs == nil {
+		return false
+	}
+	for _, r := range *refs {
+		switch x := r.(type) {
+		case *ssa.DebugRef, *ssa.UnOp:
+		case *ssa.Store:
+			if x.Val == v || readOnly {
+				return false
+			}
+		case *ssa.FieldAddr:
+			if !addrUsedForAccessOnly(x, readOnly) {
+				return false
+			}
+		case *ssa.IndexAddr:
+			if !addrUsedForAccessOnly(x, readOnly) {
+				return false
+			}
+		default:
+			return false
+		}
+	}
+	return true
 }
 
 // publish assumes F[a] = H[a] for the given fresh objects (skipping mutable heaps and `except`).
@@ -339,6 +432,8 @@ func (f *Frame) contractCall(c *ssa.CallCommon, ct *FuncContract, callee *ssa.Fu
 		ghostNames[g.Name] = true
 	}
 	envPre := f.contractEnv(ct, bind, f.st, f.st)
+	frameOnly := ex.top != nil && ex.top.FrameOnly
+	preHolds := "true"
 	for _, r := range ct.Requires {
 		if mentions(r.Term, ghostNames) {
 			continue
@@ -347,9 +442,17 @@ func (f *Frame) contractCall(c *ssa.CallCommon, ct *FuncContract, callee *ssa.Fu
 		if lab == "" {
 			lab = "pre"
 		}
+		if frameOnly {
+			// frame-only verification: the callee's functional guarantees are used only where its preconditions hold
+			preHolds = and(preHolds, substSX(r.Term, envPre))
+			continue
+		}
 		f.oblige("callee_requires", anchor+"."+lab, implies(f.pc, substSX(r.Term, envPre)), nil, r.Src)
 	}
-	if ct.Panics != nil && !mentions(ct.Panics.Term, ghostNames) {
+	if preHolds != "true" {
+		preHolds = ex.def(f.pfx+"pre", "Bool", preHolds)
+	}
+	if ct.Panics != nil && !mentions(ct.Panics.Term, ghostNames) && !frameOnly {
 		pc := substSX(ct.Panics.Term, envPre)
 		pcn := ex.def(f.pfx+"panics", "Bool", pc)
 		f.panicEdge(pcn, "callee_panics", anchor)
@@ -360,9 +463,11 @@ func (f *Frame) contractCall(c *ssa.CallCommon, ct *FuncContract, callee *ssa.Fu
 	}
 	// effects
 	if ct.HavocAll {
+		old := f.st.clone()
 		ex.nframe++
 		f.st.heaps = map[string]string{}
 		f.st.epoch = 4000 + ex.nframe
+		f.keepUnreachable(old, prov)
 	}
 	for _, h := range ct.Modifies {
 		if _, ok := ex.S.heaps[h]; !ok {
@@ -383,6 +488,23 @@ func (f *Frame) contractCall(c *ssa.CallCommon, ct *FuncContract, callee *ssa.Fu
 		}
 		f.st.heaps[h] = nh
 	}
+	for _, w := range ct.Writes {
+		if _, ok := ex.S.heaps[w.Heap]; !ok {
+			ex.fail("%s: contract of %s writes unknown heap %s", f.key, ct.Key, w.Heap)
+			continue
+		}
+		t := ex.def(f.pfx+"wr", "Int", substSX(w.Term, envPre))
+		if !ex.mutable[w.Heap] {
+			alts := []string{"(< " + t + " 0)"}
+			for _, ow := range ex.writable[w.Heap] {
+				alts = append(alts, "(= "+t+" "+ow+")")
+			}
+			f.oblige("callee_writes_fresh", anchor, implies(f.pc, or(alts...)), nil, ct.Src)
+		}
+		nc := ex.decl(f.pfx+"wrc", ex.S.heaps[w.Heap].elem)
+		oldH := ex.heapTerm(f.st, w.Heap)
+		f.st.heaps[w.Heap] = ex.def("H."+w.Heap, ex.heapSort(w.Heap), "(store "+oldH+" "+t+" "+nc+")")
+	}
 	sig := c.Signature()
 	if c.IsInvoke() {
 		sig = c.Method.Type().(*types.Signature)
@@ -402,6 +524,7 @@ func (f *Frame) contractCall(c *ssa.CallCommon, ct *FuncContract, callee *ssa.Fu
 	// The caller gives it one of its own (negative) addresses; its content is
 	// whatever the callee's ensures clauses say about $H<heap> at that address.
 	freshRes := map[int]bool{}
+	var freshResObjs []*freshObj
 	for _, fr := range ct.Fresh {
 		t, ok := bind[fr.Name]
 		if !ok {
@@ -445,13 +568,45 @@ func (f *Frame) contractCall(c *ssa.CallCommon, ct *FuncContract, callee *ssa.Fu
 			ex.assume(implies(and(f.pc, not(cond)), "(>= "+ptrT+" 0)"))
 		}
 		rv.Tup[idx].Prov = provSet{o: {}}
+		freshResObjs = append(freshResObjs, o)
+	}
+	var innerFresh provSet
+	{
+		envMid := f.contractEnv(ct, bind, f.st, pre)
+		for _, fo := range ct.FreshObjs {
+			if _, ok := ex.S.heaps[fo.Heap]; !ok {
+				ex.fail("%s: fresh_obj: unknown heap %s in %s", f.key, fo.Heap, ct.Key)
+				continue
+			}
+			o := ex.alloc(f.st, fo.Heap, nil)
+			content := ex.decl(f.pfx+"freshc", ex.S.heaps[fo.Heap].elem)
+			oldH := ex.heapTerm(f.st, fo.Heap)
+			f.st.heaps[fo.Heap] = ex.def("H."+fo.Heap, ex.heapSort(fo.Heap), "(store "+oldH+" "+o.addr+" "+content+")")
+			innerFresh = innerFresh.union(provSet{o: {}})
+			_ = envMid
+		}
+	}
+	for _, o := range freshResObjs {
+		o.inner = o.inner.union(innerFresh)
 	}
 	envPost := f.contractEnv(ct, bind, f.st, pre)
+	{
+		i := 0
+		for _, fo := range ct.FreshObjs {
+			if _, ok := ex.S.heaps[fo.Heap]; !ok {
+				continue
+			}
+			o := innerFresh.sorted()[i]
+			i++
+			t := substSX(fo.Term, envPost)
+			ex.assume(implies(f.pc, "(=> (not (= "+t+" (- 1))) (= "+t+" "+o.addr+"))"))
+		}
+	}
 	for _, e := range ct.Ensures {
 		if len(e.Ghost) > 0 || mentions(e.Term, ghostNames) {
 			continue
 		}
-		ex.assume(implies(f.pc, substSX(e.Term, envPost)))
+		ex.assume(implies(and(f.pc, preHolds), substSX(e.Term, envPost)))
 	}
 	nf := true
 	for _, a := range args {
@@ -461,11 +616,11 @@ func (f *Frame) contractCall(c *ssa.CallCommon, ct *FuncContract, callee *ssa.Fu
 		if freshRes[i] {
 			continue
 		}
-		rv.Tup[i].Prov = prov
-		rv.Tup[i].NF = nf
+		rv.Tup[i].Prov = prov.union(innerFresh)
+		rv.Tup[i].NF = nf && len(innerFresh) == 0
 		f.nfAssume(rv.Tup[i])
 	}
-	rv.Prov = prov
+	rv.Prov = prov.union(innerFresh)
 	if len(rv.Tup) == 1 {
 		return rv.Tup[0]
 	}
